@@ -233,6 +233,43 @@ def mutate_bytes(rng, text, n=1):
 
 
 # ---- numeric literal spellings (C08) ----
+def midpoint_literals(rng, n):
+    """Decimal literals a hair above / below the exact midpoint of two adjacent doubles (and the tie itself): a
+    conversion that rounds twice (through a wider format) or truncates the digit string gets these wrong."""
+    import struct
+    from fractions import Fraction
+    from decimal import Decimal, getcontext
+    getcontext().prec = 1200
+    res = []
+    seeds = [0x3ff0000000000000, 0x3ff0000000000001, 0x433fffffffffffff, 0x4340000000000000, 0x0010000000000000,
+             0x000fffffffffffff, 0x0000000000000001, 0x7fefffffffffffff - 1, 0x3fb999999999999a]
+    while len(seeds) < n:
+        seeds.append(rng.randrange(1, 0x7fe0000000000000))
+    for b in seeds[:n]:
+        lo = Fraction(struct.unpack("<d", struct.pack("<Q", b))[0])
+        hi = Fraction(struct.unpack("<d", struct.pack("<Q", b + 1))[0])
+        mid = (lo + hi) / 2
+        d = Decimal(mid.numerator) / Decimal(mid.denominator)          # exact: the denominator is a power of two
+        txt = format(d, "f")
+        if "." not in txt:
+            txt += ".0"
+        kind = rng.choice(["above", "below", "tie"])
+        if kind == "above":
+            lit = txt + "0000000001"
+        elif kind == "below":
+            # one unit in the last place less, then nines
+            digits = txt.rstrip("0")
+            if digits.endswith("."):
+                lit = txt
+            else:
+                lit = digits[:-1] + str(int(digits[-1]) - 1) + "9999999999"
+        else:
+            lit = txt
+        if len(lit) < 1100:
+            res.append(lit.encode())
+    return res
+
+
 def literal_spellings(rng, n_random=300):
     out = []
     edges = [0, 1, 7, 8, 9, 10, 2**31 - 1, 2**31, 2**31 + 1, 2**32 - 1, 2**32, 2**32 + 1, 2**63 - 1, 2**63, 2**63 + 1,
@@ -261,6 +298,7 @@ def literal_spellings(rng, n_random=300):
               b"0." + b"0" * 400 + b"1", b"1" + b"0" * 400 + b".0", b"1" * 800 + b"e-400", b"0.5e1", b"00001.5",
               b"1.e0", b"1e00000000000000000001", b"1e-00000000000000000001", b"1e99999999999999999999", b"4e-400"]
     out += floats
+    out += midpoint_literals(rng, 24)
     for _ in range(n_random):
         r = rng.random()
         if r < 0.3:
